@@ -61,6 +61,10 @@ def gen_planar(rng, n, tier):
         out.append({'x1': [pt() for _ in range(n1)], 'x2': [pt() for _ in range(n2)], 'p': rng.choice([1, 2, INF]), 'dim': rng.choice([2, 2, 1, 3]), 'rematch': rng.choice([None, None, None, 'dtw', 'frechet']), 'ptype': rng.choice([None, None, 'float', 'np.int64', 'np.float64', 'np.int32']), 'later': rng.random() < 0.3, 'plot': rng.random() < 0.2})
         if rng.random() < 0.2:
             out[-1]['geo'] = True; out[-1]['dim'] = 2
+        elif rng.random() < 0.12:
+            # the same shapes in a small unit (degrees or kilometres kept in local coordinates): homologous fixes a few 1e-5 apart are different positions
+            sc = rng.choice([2.0 ** -16, 2.0 ** -17, 2.0 ** -15])
+            out[-1]['x1'] = [[v * sc for v in p] for p in out[-1]['x1']]; out[-1]['x2'] = [[v * sc for v in p] for p in out[-1]['x2']]
     for _ in range(2):
         # two recordings of the same road, a few hundred fixes each: one waits at the start, the other at the end, so the best coupling runs far from the diagonal
         # (more than 200 cells): the fast variant must still find it.  Oracle only.
